@@ -4,8 +4,9 @@ from C13 import SU
 
 EXPLANATION = ('C14: real Integrate_MC_Brute_Force / Miser / Integrate_MC_Vegas with Sample_Uniform replaced by the random stream (symbols u_k in [0,1) or, where the control flow depends on the draws, a scripted stream) and an uninterpreted integrand: '
                'all sample points inside the hyper-rectangle, constants integrated to volume*c, Miser split sends the two halves of the region to the recursion with a conserved call budget, Vegas first-iteration samples lie inside the region; '
-               'history independence by running the observed call from a fresh state and after a different earlier call (function-local statics carried over in the interpreter memory) and comparing sample points, recursion arguments and results.')
-BOUNDS = {'quick': {'dims': [1, 2], 'plain_calls': 3, 'vegas_calls': 4}, 'thorough': {'dims': [1, 2, 3], 'plain_calls': 4, 'vegas_calls': 8}}
+               'history independence by running the observed call from a fresh state and after a different earlier call (function-local statics carried over in the interpreter memory) and comparing sample points, recursion arguments and results; '
+               'Vegas re-entered on an ARBITRARY valid grid samples inside the region (all strata, edge draws) and the real Rebin maps every valid grid and all positive densities to a valid grid - together an induction over Vegas iterations for the inside-the-region clause.')
+BOUNDS = {'quick': {'dims': [1, 2], 'plain_calls': 3, 'vegas_calls': 4, 'rebin': [(2, 2), (3, 3), (2, 3), (3, 2)]}, 'thorough': {'dims': [1, 2, 3], 'plain_calls': 4, 'vegas_calls': 8, 'rebin': [(2, 2), (3, 3), (4, 4), (2, 3), (3, 2), (3, 4), (4, 3), (5, 5)]}}
 NOT_DECIDED = ['the 6-sigma accuracy clause (statistics)', 'Vegas iterations >= 2 and the grid refinement (pow/log on symbolic densities, data-dependent while loop over 50 bins): the first iteration is cut after its sampling loop', 'the distribution of the random stream']
 ASSUMPTIONS = ['doubles exact reals', 'std::random_device/mt19937 are not consulted: every draw goes through Sample_Uniform, which is replaced by the stream', 'region lower < upper per axis, symbolic',
                'Miser split level and Vegas: the stream is scripted (two fixed sequences) because bin indices / side tests branch on every draw; region and integrand stay symbolic']
@@ -211,6 +212,26 @@ def job_vegas_grid(dim, ncall, sname):
     res.append(ob(tag + '/coverage', 'discharged' if n >= 2 else 'broken', key='C14/coverage', detail='%d sample points on an arbitrary valid grid' % n))
     return res
 
+def job_rebin(n_old, nd):
+    """Vegas grid refinement keeps the grid valid: for every valid old grid (0 < xi_0 < ... < xi_{n-1} = 1), all positive densities r and rc = sum(r)/nd the real Rebin returns 0 < xi'_0 < ... < xi'_{nd-1} = 1
+       and never indexes outside its arrays.  With job_vegas_grid (samples inside for every valid grid) this closes the induction over Vegas iterations for the 'inside the region' clause."""
+    res = []; tag = 'rebin/%d->%d' % (n_old, nd); R = [z3.Real('r%d' % k) for k in range(n_old)]; XI = [z3.Real('g%d' % k) for k in range(n_old - 1)] + [1.0]; outp = {}
+    pre = [r > 0 for r in R] + [XI[0] > 0] + [toR(XI[k]) < toR(XI[k + 1]) for k in range(n_old - 1)]
+    def out(st): outp['a'] = st.alloc(8 * nd); return outp['a']
+    rc = sum(R) / nd
+    _, ps = run('@verif_c14_rebin', [n_old, nd, rc, lambda st: st.put_doubles(R), lambda st: st.put_doubles(XI), out], {}, pre=pre, limits=Limits(max_paths=4000, feas_ms=2000, max_seconds=300))
+    mv = {'r': R, 'grid': XI[:n_old - 1], 'n_old': n_old, 'nd': nd}; nret = 0
+    for pi, p in enumerate(ps):
+        if p.end is not None:
+            if p.end.kind != 'cutoff': res.append(prove('%s/no-%s[%d]' % (tag, p.end.kind, pi), p.st.pc, z3.BoolVal(False), 30000, mv, key='C14/rebin/' + p.end.kind, detail=str(p.end), tactic='nra'))
+            continue
+        nret += 1; g = [toR(p.st.load(outp['a'] + 8 * k, 8, True)) for k in range(nd)]
+        valid = z3.And(*([g[0] > 0, g[nd - 1] == 1] + [g[k] < g[k + 1] for k in range(nd - 1)]))
+        res.append(prove('%s/grid-stays-valid[%d]' % (tag, pi), p.st.pc + alg_assumptions(p.st), valid, 60000, mv, key='C14/rebin/valid-grid', tactic='nra', sample=(nret == 1)))
+        res += divisor_obligations('%s/p%d' % (tag, pi), p.st, model_vars=mv, key='C14/rebin/division', timeout_ms=20000, tactic='nra')
+    res.append(ob(tag + '/coverage', 'discharged' if nret else 'broken', key='C14/coverage', detail='%d returning of %d paths' % (nret, len(ps))))
+    return res
+
 def DEFAULT_INTERCEPTS_():
     import llsym
     return llsym.DEFAULT_INTERCEPTS
@@ -223,6 +244,7 @@ def jobs(ctx):
         for sc in (0, 1): J.append((job_miser_split, (d, sc)))
     for d in b['dims'][:2]:
         for sc in (0, 1): J.append((job_vegas, (d, sc, b['vegas_calls'])))
+    for (no, nd) in b.get('rebin', []): J.append((job_rebin, (no, nd)))
     for d in b['dims'][:2]:
         for sn in GRID_SCRIPTS: J.append((job_vegas_grid, (d, 2 * b['vegas_calls'], sn)))
     return J
@@ -233,6 +255,12 @@ def validate(ctx):
 def replay(ctx, o):
     import ctypes
     so = native(ctx); m = o['model'] or {}; key = o['key']
+    if key.startswith('C14/rebin'):
+        R = [q2f(q) for q in m['r']]; g = [q2f(q) for q in m['grid']] + [1.0]; nd = m['nd']; no = m['n_old']
+        r = nat.call(so, 'verif_c14_rebin', [('u32', no), ('i32', nd), sum(R) / nd, ('dbl[]', R), ('dbl[]', g), ('dbl[]', [0.0] * nd)], restype='void')
+        if r['status'] != 'ok': return True, 'native Rebin(%d -> %d bins, r=%s, grid=%s): %s' % (no, nd, R, g, r['status'])
+        o_ = r['arrays'][2]; bad = not (o_[0] > 0 and o_[-1] == 1.0 and all(o_[k] < o_[k + 1] for k in range(nd - 1)))
+        return bad, 'native Rebin(%d -> %d bins) of grid %s with densities %s gives %s' % (no, nd, g, R, o_)
     if 'lo' not in m: return False, 'no model'
     lo = [q2f(q) for q in m['lo']]; hi = [q2f(q) for q in m['hi']]; d = m['dim']
     if any(a >= b for a, b in zip(lo, hi)): lo = [0.0] * d; hi = [1.0 + 0.5 * k for k in range(d)]
